@@ -26,5 +26,5 @@ def _on_raise(v, old):
 REG.add(Contract(F_ACT, 'action_tabulate', params=[('cp', T.Any), ('outfilename', T.Str)],
     # (the file is a local of the function: the clause speaks about it in the function's own proof; a caller learns nothing about the file system)
     ensures=lambda v, old, res: [v.outfile == table_of(v._ex.term_of(v._frame['tabulation'], v._st))] if 'outfile' in v._frame else [], post_names=['the-file-holds-the-whole-table'],
-    on_raise=_on_raise, raises_when=lambda v, old, exc: [z3.BoolVal(True)],
+    on_raise=_on_raise, raises_when=lambda v, old, exc: [z3.BoolVal(True)], raises_classes=['ConfigurationException', 'OSError', 'Exception'],
     carries=['post', 'on_raise'], props=['C17']))
